@@ -2078,7 +2078,9 @@ pub fn gen_single_def(rng: &mut Rng, k: &Knobs) -> Def {
     n2b.params = vec!["n".into()];
     let mut b2n = leaf_template("Bits2Num");
     b2n.params = vec!["n".into()];
-    let reg = Registry { templates: vec![leaf_template("Leaf"), n2b, b2n], functions: vec![("g".into(), 1)], has_circomlib: false };
+    // half of the single definitions use the Circomlib idioms (range checks, guarded
+    // divisions, conversions); the templates they name need not exist for lifting
+    let reg = Registry { templates: vec![leaf_template("Leaf"), n2b, b2n], functions: vec![("g".into(), 1)], has_circomlib: rng.chance(1, 2) };
     if rng.chance(1, 2) {
         gen_function(rng, k, &reg, "f")
     } else {
